@@ -1,7 +1,8 @@
 (** * TrimSnapshot — later renders of the widget / image do not change an earlier canvas (C17) *)
 From Coq Require Import List ZArith Bool.
 Import ListNotations.
-From TI Require Import lib.Term model.Trim model.TrimCanvas.
+From Coq Require Import Lia.
+From TI Require Import lib.Term model.Trim model.TrimCanvas proofs.TrimCalc.
 Open Scope Z_scope.
 
 Theorem canvas_is_snapshot cv lv1 lv2 tl tt cols rows :
@@ -18,3 +19,30 @@ Theorem content_of_text_canvas render W H w h ha va lv tl tt cols rows :
   content (build false render (W, H) (w, h) (ha, va)) lv tl tt cols rows
   = map (fun r => (r, O)) (content_text ha va W H w h (ti_lines render) tl tt cols rows).
 Proof. reflexivity. Qed.
+
+(** ** flow widgets: in EVERY environment, the rows announced are the rows rendered *)
+Theorem rows_agree_in (env : Type) (valid_size : env -> option Z -> Z * Z) e upscale maxcol :
+  rows_in env valid_size e upscale maxcol = snd (flow_canvas_in env valid_size e upscale maxcol)
+  /\ snd (flow_image_in env valid_size e upscale maxcol) = snd (flow_canvas_in env valid_size e upscale maxcol)
+  /\ (fst (valid_size e (Some maxcol)) = maxcol ->
+      fst (flow_image_in env valid_size e upscale maxcol) <= fst (flow_canvas_in env valid_size e upscale maxcol)).
+Proof.
+  unfold rows_in, flow_canvas_in, flow_image_in. split; [apply rows_agree|]. split.
+  - apply (flow_image_fits (fst (valid_size e (Some maxcol)))). reflexivity.
+  - intros Hf. apply (flow_image_fits maxcol). exact Hf.
+Qed.
+
+(** the environment matters: an ORIGINAL size remembered from another environment
+    announces a wrong number of rows (a 10x20-pixel block image, cell ratio 0.5 at
+    construction, 1.0 at layout: 10 rows announced, 20 rendered) *)
+Definition ex_valid_size (ratio2 : Z) (req : option Z) : Z * Z :=    (* ratio2 = 2 * cell ratio *)
+  match req with
+  | None => (10, (20 * ratio2 + 1) / 2)
+  | Some c => (c, (2 * c * ratio2 + 1) / 2)
+  end.
+
+Example stale_original_size_refuted :
+  rows_stale Z ex_valid_size 1 2 false 10 = 10
+  /\ snd (flow_canvas_in Z ex_valid_size 2 false 10) = 20
+  /\ rows_in Z ex_valid_size 2 false 10 = 20.
+Proof. repeat split; vm_compute; reflexivity. Qed.
